@@ -246,8 +246,8 @@ class PitRun:
             except Exception:
                 did = 0
             if self.front == 'v2':
-                v = {'ALLOW_BYPASS': 'BYPASS'}.get(getattr(ex.result, 'name', str(ex.result)),
-                                                   getattr(ex.result, 'name', str(ex.result)))
+                v = {'ALLOW_BYPASS': 'BYPASS', 'None': 'NONE', 'False': 'FALSEV'}.get(
+                    getattr(ex.result, 'name', str(ex.result)), getattr(ex.result, 'name', str(ex.result)))
             else:
                 v = 'F'
             return {'k': 'vfail', 'd': did, 'r': 0, 'v': v, 'at': at}
@@ -440,7 +440,9 @@ class PitRun:
                     else:
                         f.set_result({'PASS': ndn_types.ValidResult.PASS, 'FAIL': ndn_types.ValidResult.FAIL,
                                       'TIMEOUT': ndn_types.ValidResult.TIMEOUT, 'SILENCE': ndn_types.ValidResult.SILENCE,
-                                      'BYPASS': ndn_types.ValidResult.ALLOW_BYPASS}[v])
+                                      'BYPASS': ndn_types.ValidResult.ALLOW_BYPASS,
+                                      # a validator written for the legacy front-end: a plain falsy answer, no ValidResult
+                                      'NONE': None, 'FALSEV': False}[v])
                 else:
                     variants = {'T': [True, 1, 'x', [0]], 'F': [False, 0, None, '', []]}[v]
                     f.set_result(variants[(e + self.tick()) % len(variants)])
